@@ -1,26 +1,13 @@
 package pcosmos
 
-import (
-	"testing"
+import "testing"
 
-	"verif/harness/ev"
-)
-
+// TestSmoke: the three routers can be registered through side_chain_manager in the shared world.
 func TestSmoke(t *testing.T) {
 	for _, r := range []string{"cosmos", "okex", "heimdall"} {
 		e := newEnv(r)
-		t.Logf("%s: env ok, tracked=%v", r, e.tracked())
+		if e.tracked().Present {
+			t.Fatalf("%s: fresh chain already has a trust root", r)
+		}
 	}
-}
-
-// directed probe: three equal heimdall validators, one signs, its precommit is listed three times
-func TestHeimdallDupProbe(t *testing.T) {
-	c := c30Case{Router: "heimdall", GenHeight: 5,
-		Sets: [][]valSpec{{{Key: 0, Power: 1}, {Key: 1, Power: 1}, {Key: 2, Power: 1}}, {{Key: 5, Power: 1}}},
-		Ops: []opSpec{{Kind: "sync", Headers: []headerSpec{{Rel: 1, Set: -1, Next: 1,
-			Votes: []voteSpec{{Flag: "commit"}, {Flag: "commit", CopyOf: 1}, {Flag: "commit", CopyOf: 1}}}}}}}
-	defer func() { t.Logf("recovered: %v", recover()) }()
-	ctx := &ev.Ctx{ID: "C30"}
-	runC30(ctx, c)
-	t.Logf("no violation; nontrivial=%v", ctx.IsNonTrivial())
 }
